@@ -80,6 +80,12 @@ func main() {
 		}
 		os.Exit(1)
 	}
+	// discovery pass: which functions do the rules ask for by name? Those stay
+	// anchors; every other single-call-site helper is linked into its caller.
+	for _, id := range ruleOrder {
+		runRule(c, id)
+	}
+	c.link(c.requested)
 	if *dumpEmit {
 		for _, name := range emitterFuncs {
 			fi := c.Fn(c.W, name)
